@@ -56,6 +56,14 @@ class Ctx(object):
         self.exhaustive = None
         self.rule = ""
         self.known = [k for k in load_findings() if k.get("property") == pid and k.get("status") == "known"]
+        # replay files of earlier runs of this property are stale
+        if os.path.isdir(REPLAYS):
+            for f in os.listdir(REPLAYS):
+                if f.startswith(pid + "_"):
+                    try:
+                        os.unlink(os.path.join(REPLAYS, f))
+                    except OSError:
+                        pass
 
     # --- accounting -----------------------------------------------------------------------
     def add_tlc(self, res, kind):
@@ -152,8 +160,13 @@ class Ctx(object):
         for d, n in sorted(self.drifts.items()):
             print("DRIFT: property=%s %s (x%d)" % (self.pid, d, n))
         if self.violations:
-            for key, what, path in self.violations[:20]:
-                print("  violation: %s :: %s" % (key, what))
+            shown = set()
+            for key, what, path in self.violations:
+                if key in shown or len(shown) >= 12:
+                    continue
+                shown.add(key)
+                n = sum(1 for k, _, _ in self.violations if k == key)
+                print("  violation (x%d): %s :: %s" % (n, key, what[:600]))
             print("VIOLATION property=%s replay=%s" % (self.pid, self.violations[0][2]))
             return 1
         print("OK property=%s tier=%s seed=%d evaluations=%d nontrivial=%d states=%d traces=%d wall=%.1fs" % (
